@@ -19,6 +19,8 @@ Local Open Scope char_scope.
 Record fixes := { fx2 : bool; fx3 : bool }.
 Definition pinned : fixes := {| fx2 := false; fx3 := false |}.
 Definition repaired : fixes := {| fx2 := true; fx3 := true |}.
+(** the tree after fixes/C08-F2.diff alone *)
+Definition fixed_F2 : fixes := {| fx2 := true; fx3 := false |}.
 
 Inductive setting := Off | On | NoDecode.
 
@@ -37,14 +39,33 @@ Record rule := {
 (** * the request as heimdall sees it *)
 
 (** [None]: net/http answers 400 itself (the request target does not parse) *)
-Definition view (host raw query : string) : option hurl :=
-  match set_path raw with
-  | None => None
-  | Some (p, rp) =>
-    let raw_path := escaped_path p rp in
-    Some {| u_scheme := "http"; u_host := host; u_path := unescape_or_empty raw_path;
-            u_rawpath := raw_path; u_query := query |}
+Definition view_of (host p rp query : string) : hurl :=
+  let raw_path := escaped_path p rp in
+  {| u_scheme := "http"; u_host := host; u_path := unescape_or_empty raw_path;
+     u_rawpath := raw_path; u_query := query |}.
+
+(** a byte that cannot be part of a request target: SP ends the target in the
+    request line, control bytes are refused by url.ParseRequestURI *)
+Definition bad_target_byte (c : ascii) : bool := (nb c <=? 32)%N || (nb c =? 127)%N.
+
+Fixpoint has_bad_target_byte (s : string) : bool :=
+  match s with
+  | EmptyString => false
+  | String c r => bad_target_byte c || has_bad_target_byte r
   end.
+
+(** [raw] is the request target up to the first '?', [query] the rest (the
+    target is [raw] alone when [query] is empty).  url.ParseRequestURI accepts the
+    target "*" (as Path "*", without going through setPath) and otherwise only
+    targets that start with '/' (heimdall's servers never see CONNECT or
+    absolute-form targets in this model). *)
+Definition view (host raw query : string) : option hurl :=
+  if String.eqb raw "*" && is_empty query then Some (view_of host "*" "" query)
+  else if negb (has_prefix "/" raw) || has_bad_target_byte raw then None
+  else match set_path raw with
+       | None => None
+       | Some (p, rp) => Some (view_of host p rp query)
+       end.
 
 (** repository.FindRule *)
 Definition lookup_path (u : hurl) : string :=
